@@ -1,5 +1,5 @@
 SPEC = {
-    "corr": [{"kind": "options", "quick": 3200, "thorough": 160000,
+    "corr": [{"kind": "options", "quick": 8000, "thorough": 500000,
               "runner": {"pkg": "./vflow", "test": "TestVerifOptions", "race": False}}],
     "rule": "real NewOptions+flagSet on random subsets of {environment, file, command line} x 0..4 of the 45 documented "
             "int/string/bool keys x random values (both dash spellings, -k v / -k=v / bare bool, repeated flags, "
